@@ -66,7 +66,7 @@ impl Property for C07 {
         let wchunks = gen_chunks(total, &cuts, &mut t);
         let routes = t.route(6);
         st.shapes_seen.insert(name.clone());
-        let budget = 8 * total + 4 * wchunks.len() + 256;
+        let budget = 8 * total.max(msgs.upper_total) + 4 * wchunks.len() + 256;
 
         // sender
         let mut sink = ScriptSink::new(wouts(&wchunks), WOut::Accept(usize::MAX), budget);
